@@ -409,6 +409,19 @@ def constant_args_profile(f):
     return out
 
 
+def _arg_values(f, cal):
+    """{constant name: value} of the named integer constants f passes to cal"""
+    out = {}
+    for b, i, c in f.calls(cal):
+        for a in c['args']:
+            x = a
+            while isinstance(x, dict) and x.get('k') in ('paren', 'cast') and isinstance(x.get('e'), dict):
+                x = x['e']
+            if is_int(x) and x.get('name'):
+                out[x['name']] = x['v']
+    return out
+
+
 def constant_arguments(ck, prog):
     pid = ck.pid
     files = anchor_files(pid)
@@ -438,6 +451,31 @@ def constant_arguments(ck, prog):
             gone = {k: v - consts.get(k, 0) for k, v in ref[cal].items() if v > consts.get(k, 0)}
             new = {k: v - ref[cal].get(k, 0) for k, v in consts.items() if v > ref[cal].get(k, 0)}
             key = '%s:%s' % (f.name, cal)
+            if gone and new:
+                # the same value under another spelling (a literal given a name, a renamed macro) is not a change
+                vals = _arg_values(f, cal)
+
+                def val(nm):
+                    if nm.startswith('int:'):
+                        return int(nm[4:])
+                    if nm.startswith('str:'):
+                        return nm
+                    if nm in vals:
+                        return vals[nm]
+                    try:
+                        return prog.macro_int(nm)
+                    except Exception:
+                        return None
+                for g in list(gone):
+                    for w in list(new):
+                        if g in gone and w in new and val(g) is not None and val(g) == val(w):
+                            k2 = min(gone[g], new[w])
+                            gone[g] -= k2
+                            new[w] -= k2
+                            if not gone[g]:
+                                del gone[g]
+                            if not new[w]:
+                                del new[w]
             if gone and new and sum(gone.values()) == sum(new.values()):
                 line = next((c['line'] for b, i, c in f.calls(cal)), f.line)
                 r.violation(key, f.name, f.file, line,
